@@ -11,6 +11,9 @@ import (
 
 // mkfs returns the constructor of a plain file system kind.
 func mkfs(kind string) func() (hackpadfs.FS, func(), error) {
+	if strings.HasPrefix(kind, "dev=") {
+		return devFS(kind)
+	}
 	switch kind {
 	case "mem":
 		return fsad.MemFS
